@@ -19,7 +19,8 @@
 //!           gr:<bytes>                                                   body(Body::from_reader(cursor, None)) (length unknown)
 //!           q:<k>=<v>,…:<url after the call>   query(&map)   (result computed by `gen` with serde_qs + url directly)
 //! C14 out : `req <number of effects> <METHOD> <url> <headers> <body>` | `panic <class>`
-//!           headers: `_` or `,`-separated `<name>=<value>` sorted by name, values of one name in their order
+//!           headers: `_` or `,`-separated `<name>=<value>` in the order of the effect (the code sorts them by name,
+//!           values of one name in their order)
 //!
 //! C15 case: `resp <api> <expect> <result> <cs> <enc> <sd> <jd>`
 //!   expect  bytes | string | jv (expect_json::<serde_json::Value>) | ju (expect_json::<u64>)
@@ -291,17 +292,13 @@ fn show_result<T>(r: crux_http::Result<Response<T>>, body: impl Fn(&T) -> String
     }
 }
 
-/// headers of the protocol request: group by name (names arrive lower-cased from http-types; a name may in
-/// principle occur in several runs — keep the order of appearance within a name)
+/// headers of the protocol request, in the order of the effect (sorted by name since /repo cda2127; the order is
+/// part of the observation)
 fn show_req_headers(hs: &[HttpHeader]) -> String {
-    let mut groups: Vec<(String, Vec<String>)> = vec![];
-    for h in hs {
-        match groups.iter_mut().find(|g| g.0 == h.name) {
-            Some(g) => g.1.push(h.value.clone()),
-            None => groups.push((h.name.clone(), vec![h.value.clone()])),
-        }
+    if hs.is_empty() {
+        return "_".into();
     }
-    show_pairs(groups)
+    hs.iter().map(|h| format!("{}={}", to_hex(h.name.as_bytes()), to_hex(h.value.as_bytes()))).collect::<Vec<_>>().join(",")
 }
 
 fn show_request(n: usize, op: &HttpRequest) -> String {
